@@ -207,9 +207,12 @@ def run(tier, seed):
     if not res.ok:
         chk.violation('model: ObjTree %s %s' % res.violation, dict(kind='TLC', trace=repr(res.trace[-2:])))
     chk.notes['graph'] = [len(g.nodes), g.nedges]
-    paths = list(core.edge_cover_paths(g))
-    if not thorough and len(paths) > 700:
-        paths = rng.sample(paths, 700)
+    # every edge lies on one of the tours (long paths: the view is queried at every path after every step, which is what
+    # costs); the quick tier takes a sample of them
+    paths = list(core.edge_cover_tours(g, 25))
+    chk.notes['tours'] = len(paths)
+    if not thorough and len(paths) > 260:
+        paths = rng.sample(paths, 260)
     core.replay_paths(chk, g, paths, lambda acts: TreeDriver(UNI), 'edges', 'c16', {})
     core.replay_paths(chk, g, list(core.random_walks(g, 1500 if thorough else 100, 12, rng)), lambda acts: TreeDriver(UNI), 'walks', 'c16', {})
     # code -> spec: larger universe (deeper siblings), random histories
